@@ -271,13 +271,21 @@ def check_leaf(ctx, g):
         blocks = [b1, b2]
     add_edge(ir.cfg, blocks[-1], add_proxy_block(m), ET.Return) if g["kind"] != "ijmp" else None
     add_function(m, "f", blocks[0], set(blocks[1:]))
+    target = blocks[0]
+    if g["kind"] == "orphan":
+        # code that belongs to no function, right behind a function that calls: nothing says it is not a leaf
+        target = add_code_block(bi, b"\x90\xc3")
+        add_edge(ir.cfg, target, add_proxy_block(m), ET.Return)
 
     @patch_constraints(clobbers_registers={"rax"})
     def p(ictx):
         return "movl $%d, %%eax" % 0x5a5a5a
 
     rc = RewritingContext(m, gtirb_functions.Function.build_functions(m))
-    rc.insert_at(blocks[0], 0, Patch.from_function(p))
+    if g["kind"] == "orphan":
+        # the function in front is visited first and gets a patch too
+        rc.insert_at(blocks[0], 0, Patch.from_function(patch_constraints()(lambda ictx: "nop")))
+    rc.insert_at(target, 0, Patch.from_function(p))
     rc.apply()
     text = b"".join(bytes(x.contents) for x in sorted(m.byte_intervals, key=lambda x: x.address))
     md = capstone.Cs(capstone.CS_ARCH_X86, capstone.CS_MODE_64)
@@ -293,8 +301,8 @@ def check_leaf(ctx, g):
 
 
 def run(ctx):
-    for k in range(ctx.budget(8, 40)):
-        check_leaf(ctx, {"leaf_case": True, "kind": ["syscall", "ijmp", "plain", "call"][k % 4]})
+    for k in range(ctx.budget(10, 40)):
+        check_leaf(ctx, {"leaf_case": True, "kind": ["syscall", "ijmp", "plain", "call", "orphan"][k % 5]})
     abis = _abi_objs()
     pending = []
     for abiname in ABIS:
